@@ -1,10 +1,16 @@
 """C20: check configuration (PROP) and MANIFEST texts (META)."""
 PROP = {
-    "lean_modules": ["ConduitModel.Props.C20", "ConduitModel.Facts.C20", "ConduitModel.Facts.C20Sites"],
+    "lean_modules": ["ConduitModel.Props.C20", "ConduitModel.Facts.C20", "ConduitModel.Facts.C20Sites", "ConduitModel.Facts.C20Prop"],
     "jobs": [
         {"harness": "h_pure", "comp": "errsite", "n_quick": 800, "n_thorough": 800,
          "why": "a cerrors.Errorf call site of the code base drops an error it was given with %w (xerrors wraps nothing when the "
                 "format holds several %w): the classification of that error (fatal mark, code, sentinel) is lost on this path"},
+        {"harness": "h_pure", "comp": "ackerr", "n_quick": 20000, "n_thorough": 400000,
+         "why": "the error a v1 DestinationAckerNode stops with (real SourceAckerNode, DestinationAckerNode, DLQHandlerNode + "
+                "lifecycle.DLQDestination over scripted connectors) is classified differently from the model whose wrappers are the "
+                "transparent %w wrappers of the clean tree: an error of the ack / nack handler chain (the fatal 'DLQ nack threshold "
+                "exceeded', a DLQ write failure, a failed Source.Ack, the original nack reason) was flattened on its way to "
+                "lifecycle.Service's IsFatalError classification - recoverable restart instead of degraded, code and sentinels lost"},
         {"harness": "h_pure", "comp": "workernack", "n_quick": 20000, "n_thorough": 400000,
          "why": "the error funnel.Worker.Nack returns (real Worker, real DLQ window and DestinationTask, scripted connectors) is classified "
                 "differently from the model, or - with equal classification - drops the fatal mark / code / sentinel of an error the call "
@@ -21,10 +27,16 @@ PROP = {
             "result of at least two nested constructors. errsite: one case per cerrors.Errorf call site of the repository (non-trivial = "
             "some argument stays reachable). errfmt: random and template formats x argument kinds (non-trivial = something is wrapped). workernack: DLQ window "
             "configuration x 0-5 nacked records (empty / non-empty position, generated nack error, generated DLQ ack error) x source ack "
-            "outcome x DLQ write outcome (non-trivial = Worker.Nack returned an error)",
+            "outcome x DLQ write outcome (non-trivial = Worker.Nack returned an error). ackerr: DLQ window (off / small / large, thresholds that "
+            "trip) x 1-7 messages, each acked or nacked by the destination with a generated error, DLQ destination behaviour (ok / Write "
+            "fails / Ack fails / nacks the DLQ record) and Source.Ack outcome (ok / generated error / closed stream) (non-trivial = the "
+            "destination acker node stopped with an error)",
     "strength": "full for every error tree, every list of wrapping layers, every code and registry (structural induction); registry, exit "
                 "switch and every Errorf call site decided over the regenerated tables",
     "assumptions": [
+        "error-valued arguments of propagation sites are recognised syntactically (names err / xxxErr / ErrXxx / reason / cause, fields and "
+        "calls Err / Error / Reason / Cause, calls into cerrors / errors / fmt.Errorf, identifiers declared `error` in the enclosing function); "
+        "propagation packages = pkg/lifecycle, lifecycle/stream, lifecycle-poc, lifecycle-poc/funnel, connector, processor, foundation/cerrors",
         "error types outside the modelled node kinds (leaf, transparent wrapper, xerrors noWrapError, joinError, fatalError, ConduitError, "
         "grpc status.Error) do not define their own As/Is/Unwrap behaviour on the paths considered (the Unwrap method set of the repository is "
         "listed by factgen: dnsError, ValidationError, ConduitError, fatalError)",
